@@ -92,7 +92,9 @@ def run(chk):
         for c in v:
             cases.append(c)
             chk.tally('shape:' + k)
-    pool = ['', 'a', 'é', 'ß', '日本', '😀', '߿ࠀ', 'srvé中', '\x7f\x80', 'Ω' * 20]
+    pool = ['', 'a', 'é', 'ß', '日本', '😀', '߿ࠀ', 'srvé中', '\x7f\x80', 'Ω' * 20,
+            # ids that are not in Unicode normal form C / KC (hashed as sent, never normalised)
+            'e\u0301', 'A\u030a', '\u212b', '\u2126', '\uf900', '\u1100\u1161', 'a\u0323\u0307', 'a\u0307\u0323', '\ufb01', '\uff21', '\u00b5']
     for _ in range(2000 if chk.tier == 'thorough' else 300):
         sid = rng.choice(pool) + ''.join(chr(rng.choice([rng.randrange(32, 127), rng.randrange(0xa0, 0x800), rng.randrange(0x800, 0xd800), rng.randrange(0x10000, 0x11000)])) for _ in range(rng.randrange(0, 12)))
         secret = bytes(rng.randrange(256) for _ in range(16))
